@@ -179,6 +179,7 @@ def stepN (fo : FloatOps) (fuel : Nat) (s : StN) (op : Json) : E (StN × Json) :
           let axis := i + cur.axes.length - nd
           match sub with
           | .int k => do let c ← cur.selectInt axis k; pure (c, i + 1)
+          | .slice none none => pure (cur, i + 1)   -- `select(axis, slice(None))` returns the object itself
           | .slice a b => pure (cur.selectSlice fo axis a b, i + 1)) (h, 0)
         if cur.axes.length = 0 then
           -- all indices are integers: the call returns (bin edges, content)
